@@ -3,7 +3,8 @@ CONSTANTS N = 7
           C = 2
           Props = {1, 2, 3}
           Endrs = {3, 4, 5, 6, 7}
-          MaxMsgs = 5
+          VerifyCarried = FALSE
+          MaxMsgs = 4
           Alpha <- A7Genuine
           EmitOn = FALSE
 VIEW View
